@@ -705,8 +705,42 @@ func Value(t *rapid.T, typ reflect.Type, o VOpts) reflect.Value {
 
 var strPool = []string{"", "a", "b", "ab", "é", "日本", "x y", "\xff", "0", "null"}
 
+// minimal gives v the smallest value that is still inside C04's domain: maps empty but not nil,
+// embedded pointers allocated, everything else zero (nil pointers and nil slices are in the domain).
+func (g *vg) minimal(v reflect.Value, embeddedPtr bool) {
+	switch v.Kind() {
+	case reflect.Map:
+		if v.CanSet() {
+			v.Set(reflect.MakeMap(v.Type()))
+		}
+	case reflect.Pointer:
+		if embeddedPtr && v.CanSet() {
+			p := reflect.New(v.Type().Elem())
+			g.minimal(p.Elem(), false)
+			v.Set(p)
+		}
+	case reflect.Array:
+		for i := 0; i < v.Len(); i++ {
+			g.minimal(v.Index(i), false)
+		}
+	case reflect.Struct:
+		if stdMarshalerTypes[v.Type()] {
+			return
+		}
+		for i := 0; i < v.NumField(); i++ {
+			sf := v.Type().Field(i)
+			if !sf.IsExported() && !sf.Anonymous {
+				continue
+			}
+			g.minimal(v.Field(i), sf.Anonymous && sf.Type.Kind() == reflect.Pointer)
+		}
+	}
+}
+
 func (g *vg) fill(v reflect.Value, depth int, embeddedPtr bool) {
 	if depth > 8 {
+		// very deep types: stop drawing, but stay inside the domain (a zero value would hold nil maps)
+		g.minimal(v, embeddedPtr)
 		return
 	}
 	t := v.Type()
